@@ -134,6 +134,10 @@ class Ctx:
             print("VIOLATION property=%s replay=%s" % (self.prop, path), flush=True)
             log("violation:", what)
 
+    def enough(self):
+        """True once 5 violations are on record: further mismatches need not be re-confirmed one by one."""
+        return getattr(self, "violation_count", 0) >= 5
+
     def known_finding(self, dev, what):
         line = "KNOWN-FINDING: property=%s %s: %s" % (self.prop, dev, what)
         if line not in self.known:
